@@ -969,7 +969,13 @@ func (self *LockResultCommandData) GetDataProperties() []*LockCommandDataPropert
 	properties := make([]*LockCommandDataProperty, 0)
 	propertyLen, index := int(self.Data[6])|int(self.Data[7])<<8, 0
 	for index < propertyLen {
+		if 11+index > len(self.Data) {
+			break
+		}
 		propertyCode, valueLen := self.Data[8+index], int(self.Data[9+index])|int(self.Data[10+index])<<8
+		if 11+index+valueLen > len(self.Data) {
+			break
+		}
 		if valueLen > 0 {
 			properties = append(properties, NewLockCommandDataProperty(propertyCode, self.Data[11+index:11+index+valueLen]))
 		} else {
@@ -986,7 +992,13 @@ func (self *LockResultCommandData) GetDataProperty(code uint8) *LockCommandDataP
 	}
 	propertyLen, index := int(self.Data[6])|int(self.Data[7])<<8, 0
 	for index < propertyLen {
+		if 11+index > len(self.Data) {
+			break
+		}
 		propertyCode, valueLen := self.Data[8+index], int(self.Data[9+index])|int(self.Data[10+index])<<8
+		if 11+index+valueLen > len(self.Data) {
+			break
+		}
 		if code == propertyCode {
 			if valueLen > 0 {
 				return NewLockCommandDataProperty(code, self.Data[11+index:11+index+valueLen])
